@@ -122,7 +122,7 @@ def build_jobs(tier: str):
     return jobs, pairs
 
 
-def run(tier: str, replay: str | None = None) -> int:
+def run(tier: str, replay_inputs: list | None = None) -> int:
     res = Result('C16', tier)
     # ---- M1
     cfg = f'MC_Schedule_{tier}.cfg'
@@ -141,6 +141,8 @@ def run(tier: str, replay: str | None = None) -> int:
     replay_vectors(res, vectors)
     # ---- M3
     jobs, pairs = build_jobs(tier)
+    if replay_inputs is not None:
+        jobs, pairs = replay_inputs, []
     out = sim.run_many(jobs, 'harness.c16:project')
     by_tag = {o['tag']: o for o in out}
     traces = []
@@ -191,6 +193,9 @@ def run(tier: str, replay: str | None = None) -> int:
     if traces:
         res.sample({'m3_trace': {k_: (v_ if k_ != 'products' else [dict(p, series=p['series'][:4] + ['...']) for p in v_])
                                  for k_, v_ in traces[0].items()}, 'verdict': verdicts[traces[0]['tid']]})
+    if replay_inputs is not None:
+        res.violations = [v for v in res.violations if not v[0].get('clause', '').endswith('_m2')]
+        return res.finish()
     if not clause_counts.get('C16_price') or not clause_counts.get('C16_itc'):
         raise MachineryFailure('C16: a clause family was never evaluated (vacuous run)')
     res.exhaustive = False
@@ -200,3 +205,16 @@ def run(tier: str, replay: str | None = None) -> int:
     res.assumptions += ['heat/cooling PTC: both readings (number added as declared, or converted USD/MMBTU->USD/kWh) accepted',
                         'tolerance 1e-9 x sum of |terms| between exact rational evaluation and IEEE doubles']
     return res.finish()
+
+
+def replay(path: str) -> int:
+    """M2 vector -> the real BuildPTCModel / BuildPricingModel again; M3 -> the recorded input through the real simulator again."""
+    import json
+    rp = json.loads(open(path).read())['replay']
+    if 'vector' in rp:
+        res = Result('C16', 'quick')
+        replay_vectors(res, [rp['vector']])
+        return res.finish()
+    if rp.get('input_a'):      # incentive pair: both members are needed, so the quick plan is executed again for this key
+        return run('quick')
+    return run('quick', [('replay', rp['input_text'])])
